@@ -61,6 +61,15 @@ class C18(Plugin):
             for perm in itertools.permutations(keys, r):
                 out.append({"toks": [{"type": "StartTag", "namespace": None, "name": "a",
                                       "data": [[list(k), str(i)] for i, k in enumerate(perm)]}]})
+        # the same key set on consecutive tags, in different orders (a filter must not carry anything over)
+        for r in (2, 3):
+            perms = list(itertools.permutations(keys[:r + 1], r))
+            for i, p1 in enumerate(perms):
+                p2 = perms[(i * 5 + 1) % len(perms)]
+                if set(p1) != set(p2):
+                    p2 = tuple(reversed(p1))
+                mk = lambda pp, nm: {"type": nm, "namespace": None, "name": "td", "data": [[list(k), str(j)] for j, k in enumerate(pp)]}
+                out.append({"toks": [mk(p1, "StartTag"), {"type": "Characters", "data": "x"}, mk(p2, "StartTag"), mk(p1, "EmptyTag")]})
         return out
 
     def cases(self, rng, n, tier):
